@@ -457,6 +457,50 @@ def run(chk, prog):
     chk.check(ok, "R1", A.loc(mainf, {"line": pad[0].line if pad else mainf["line"]}), "main: the padding factor is at least 1, so the transform length is at least N (%s)" % (pad[0].value if pad else None),
               "main:padding>=1")
     n1 += 1
+    # the padded positions bucket*spacing_bins + [0,N) must fit the transform length: main's side of the obligation.
+    # (a) bucket numbers range over [0, n_buckets-1]; (b) the bucket-train length is selected whenever there is more than one
+    # bucket; (c) that length is ceil(N*n_buckets*s) or larger, the spacing round(N*s): (c) leaves the round/ceil gap recorded
+    # as a known finding, (a) and (b) are decided here.
+    mk = [x for x in A.walk(mainf["body"]) if x.get("callee") == "vfps::makeImpedance"]
+    A.require(len(mk) == 2, "main: the two makeImpedance calls not found")
+    wk = [x for x in mk if A.strip(x["args"][0]).get("k") == "ConditionalOperator"]
+    n1 += 1
+    ok = False
+    ct = ""
+    if len(wk) == 1:
+        co = A.strip(wk[0]["args"][0])
+        ct = A.show(co["cond"]).replace(" ", "").strip("()")
+        th, el = (A.declref(co["then"]) or {}).get("name"), (A.declref(co["else"]) or {}).get("name")
+        ok = ct in ("filling.size()>1", "nbuckets>1") and th == "spaced_bins" and el == "padded_bins"
+    chk.check(ok, "R1", A.loc(mainf, wk[0]) if wk else mainf.where,
+              "main: the wake transform length is the bucket-train length (spaced_bins) whenever there is more than one bucket, else the single-bunch length (selector `%s`)" % ct,
+              "main:wake-length-selector:%s" % ct)
+    bn = [x for x in A.walk(mainf["body"]) if x.get("k") == "CXXMemberCallExpr" and (x.get("callee") or "").endswith("::push_back") and "bucketnumbers" in A.show(A.call_object(x))]
+    n1 += 1
+    ok = False
+    loc_ = {d["name"]: sm.tr.env.get(k_) for k_, d in sm.locals.items()}
+    fill = loc_.get("filling")
+    if len(bn) == 1 and fill is not None:
+        acc = [c_ for c_ in sm.calls if c_.node.get("id") == bn[0]["id"]]
+        if acc and acc[0].args[0] is not None and acc[0].loops:
+            L = acc[0].loops[0]
+            v = acc[0].args[0]
+            fs = sp.Function("size")(sp.Symbol(str(fill).replace(" ", ""), real=True))
+            ok = sp.simplify(v - (fs - 1 - L.sym)) == 0 and L.lo == 0 and L.hi is not None and sp.simplify(L.hi - fs) == 0
+    chk.check(ok, "R1", A.loc(mainf, bn[0]) if bn else mainf.where, "main: bucket numbers are n_buckets-1-i for i in [0,n_buckets): they lie in [0, n_buckets-1]", "main:bucket-number-range")
+    sb, sps, psb = loc_.get("spacing_bins"), loc_.get("spacing_ps"), loc_.get("ps_bins")
+    nbk = loc_.get("nbuckets")
+    n1 += 1
+    ok = sb is not None and sps is not None and psb is not None and sp.simplify(sb - sp.Function("round")(psb * sps)) == 0
+    chk.check(ok, "R1", mainf.where, "main: spacing_bins = round(N * spacing) (%s)" % sb, "main:spacing_bins:%s" % sb)
+    spd = [a for a in sm.accesses if a.kind == "store" and a.base == "spaced_bins" and a.idx is None]
+    n1 += 1
+    ok = len(spd) >= 1 and spd[0].value is not None and spd[0].value.func == sp.ceiling and \
+        sp.simplify(spd[0].value.args[0] - psb * nbk * sps) == 0 if (psb is not None and sps is not None and nbk is not None) else False
+    ok = ok and fill is not None and nbk is not None and sp.simplify(nbk - sp.Function("size")(sp.Symbol(str(fill).replace(" ", ""), real=True))) == 0
+    later = [a for a in spd[1:]]
+    ok = ok and all("upper_power_of_two" in str(a.value) for a in later)
+    chk.check(bool(ok), "R1", mainf.where, "main: the bucket-train length is ceil(N * n_buckets * spacing), only ever enlarged (to a power of two)", "main:spaced_bins")
     chk.floor("R1-obligations", n1, 30)
     chk.notes.append("C17: %d bounds obligations on the work arrays (symbolic max index vs. allocation extent), stream-extraction discipline, definite assignment "
                      "of scalar locals over all functions, foreign-container subscripts, guarded integer division. NOT decided: UB-freedom in general, libraries." % n1)
